@@ -162,6 +162,17 @@ func (ex *Exec) solveOne(o *Obligation, dir string, id string, timeoutS int, tho
 				st = "sat-relaxed"
 			}
 		}
+		if st == "unsat" && o.Class == "cover-call" {
+			// infeasible after the call: fine unless it was feasible before
+			b := *o
+			b.Lines = o.Before
+			stb, _, _ := runSolver(context.Background(), solvers[0], ex.script(&b, false), dir, id+"b", 2)
+			if stb == "sat" {
+				st = "unsat-after-sat-before"
+			} else {
+				st = "infeasible-path"
+			}
+		}
 		res.Status, res.Solver, res.Seconds = st, solvers[0].name, time.Since(t0).Seconds()
 		return res
 	}
